@@ -69,6 +69,14 @@ func (s *Session) Index(layers []int, script Script, dead bool) Result {
 	return res
 }
 
+// Delete performs one DeleteManifests operation and emits it.
+func (s *Session) Delete(ms [][]int) string {
+	out := s.W.Delete(ms)
+	s.op(DeleteOp(ms), out, true)
+	s.R.Count(fmt.Sprintf("delete.manifests=%d", len(ms)))
+	return out
+}
+
 func (s *Session) count(res Result, script Script, dead bool) {
 	r := s.R
 	switch {
